@@ -434,7 +434,7 @@ func main() {
 	}
 	worlds := 420
 	if c.Thorough() {
-		worlds = 4000
+		worlds = 3000
 	}
 	start := time.Now()
 	for i := 0; i < worlds; i++ {
